@@ -27,7 +27,7 @@ PROP = "C06"
 def stop_class(r):
     o = r["obs"]
     sched = r["sched"]
-    kinds = [a[0] for a in sched]
+    kinds = [a[2] if a[0] == "settle-stop" else a[0] for a in sched]
     if "close" in kinds:
         return "close-before-first-pull" if "pull" not in kinds[:kinds.index("close")] else "close"
     if "abort" in kinds:
@@ -73,10 +73,11 @@ def explore_stops(req, early, sig, depth):
     def rec(prefix):
         nonlocal runs
         run = increq.IncRun(req, early=early, with_signal=sig)
+        run.fine_stops = True
         caller_before = None
         outstanding = False
         for a in prefix:
-            if a[0] in ("close", "abort"):
+            if a[0] in ("close", "abort", "settle-stop"):
                 caller_before = list(run.caller)
                 outstanding = run.pull_task is not None and not run.pull_task.done()
             run.do(a)
